@@ -21,7 +21,9 @@ EXPLANATION = (
     "the reader skips; (direct extent) for each of the 128 direct headers the length guard and the reported byte "
     "count are ceil(n/2) and 1 + ceil(n/2), evaluated in the source's own integer types; (remembered table) the "
     "compressor remembers a Huffman table for treeless reuse only if its description was written and kept (shared "
-    "with C02.pair.huffman-commit). Not decided: completeness/depth of the generated code, the < 128-byte bound, canonical code "
+    "with C02.pair.huffman-commit); (reuse) self.can_encode(other) refuses when `other` has a code for a symbol `self` has "
+    "none for (provenance of the compared values through the zip), and the caller asks the old table about the table built "
+    "from the current literals. Not decided: completeness/depth of the generated code, the < 128-byte bound, canonical code "
     "assignment and round trip for every histogram — numerical.")
 ASSUMPTIONS = ["BitWriter::write_bits is LSB-first", "code construction arithmetic not analysed"]
 
